@@ -13,4 +13,7 @@ EntryJson(e) == [pp |-> e.pp, ref |-> e.ref, d |-> e.d, xid |-> e.xid, k |-> e.k
 EmitSerialInv == SerialOK(t) =>
    PrintT(ToJson([state |-> StateJson(t),
                   enc |-> [i \in 1..Len(Encode(t)) |-> EntryJson(Encode(t)[i])]]))
+(* the dict-list form stores every node's own data: also states in which one clone group holds several data objects *)
+EmitAllInv == PrintT(ToJson([state |-> StateJson(t), serial_ok |-> SerialOK(t),
+                             enc |-> [i \in 1..Len(Encode(t)) |-> EntryJson(Encode(t)[i])]]))
 =============================================================================
